@@ -580,7 +580,9 @@ def classify(tool, argv, o, fs, mutated):
     if not lines:
         return "error", ("error-without-message", "exit status %d, empty "
                          "stderr, stdout=%r" % (o.status, o.stdout[:200]))
-    accepted = {MARKER[req], tool_default}
+    # the marker of the output format that was asked for (when the command
+    # line was mutated the request itself may be unclear: any marker)
+    accepted = {MARKER[req]}
     if mutated:
         accepted |= set(MARKER.values())
     bad = [l for l in lines
